@@ -725,6 +725,7 @@ func (a *Assembler) AssembleWithContext(netFlow gopacket.Flow, t *layers.TCP, ac
 		}
 	}
 
+	wasQueued := action.queue
 	action = a.handleBytes(bytes, seq, half, t.SYN, t.RST || t.FIN, action, ac)
 	if len(a.ret) > 0 {
 		action.nextSeq = a.sendToConnection(conn, half, ac)
@@ -739,9 +740,31 @@ func (a *Assembler) AssembleWithContext(netFlow gopacket.Flow, t *layers.TCP, ac
 			half.nextSeq = half.nextSeq.Add(1)
 		}
 	}
+	// The packet may have added several pages while the release above frees
+	// as little as one: keep releasing the lowest data until we are back
+	// under the limit.
+	for wasQueued && !half.closed && half.first != nil && a.overLimit(half) {
+		a.skipFlush(conn, half)
+	}
 	if *debugLog {
 		log.Printf("%v nextSeq:%d", key, half.nextSeq)
 	}
+}
+
+// overLimit tells whether the out-of-order pages of half alone still reach the
+// per-connection limit (pages kept for the stream cannot be released here), or
+// the total limit is reached.
+func (a *Assembler) overLimit(half *halfconnection) bool {
+	if a.MaxBufferedPagesPerConnection > 0 {
+		queued := 0
+		for p := half.first; p != nil; p = p.next {
+			queued++
+		}
+		if queued >= a.MaxBufferedPagesPerConnection {
+			return true
+		}
+	}
+	return a.MaxBufferedPagesTotal > 0 && a.pc.used >= a.MaxBufferedPagesTotal
 }
 
 // Overlap strategies:
